@@ -226,4 +226,24 @@ example :
     (rowsM natWorld D P true q (afterEvalsOn P natWorld D q 2 [])).1 = [[2], [5]] ∧
     rows natWorld D q = [[2], [5]] := by decide
 
+/-- **The switch is read when a query is evaluated** (conjunctive queries over any number of variables): after `n`
+    evaluations with the result cache ENABLED - whatever they left in the caches and tracking sets - an
+    evaluation with the cache DISABLED returns exactly the L1 rows; nothing stored by the cached evaluations is
+    consulted.  (The model's evaluator takes the switch as a run-time argument of every evaluation, as
+    `is_caching_enabled()` is read inside `_evaluate__`; the round-18 stream `built_under_caching` checks that
+    the implementation does so too.) -/
+theorem c05_switch_off_after_cached_conj (W : World V) (D : VarId → List V) (P : Params V)
+    (q : Query V) (c : Cond V) (hq : q.cond = some c) (hc : Machine.Cond.conj c = true)
+    (hf : c.noFlat = true) (n : Nat) :
+    (rowsM W D P false q (afterEvalsOn P W D q n [])).1 = rows W D q :=
+  rowsM_conj_off W D P q c hq hc hf _
+
+/-- Non-vacuity: two cached evaluations of a two-variable join, then one with the cache switched off. -/
+example :
+    let D : VarId → List Nat := fun _ => [1, 2, 3]
+    let P : Params Nat := { rank := id, toKey := id, ofKey := id }
+    let q : Query Nat := ⟨[.var 0, .var 1], some (.and (.cmp .lt (.var 0) (.var 1)) (.cmp .gt (.var 0) (.lit 1)))⟩
+    (rowsM natWorld D P false q (afterEvalsOn P natWorld D q 2 [])).1 = [[2, 3]] ∧
+    rows natWorld D q = [[2, 3]] := by decide
+
 end Eql
